@@ -30,7 +30,55 @@ type c31Gate struct {
 	done    chan struct{} // closed when it has
 }
 
+// c31Track counts, per address, how many timer goroutines have entered and left
+// Reconnector.attemptReconnect (hook points peer.reconnect.fire / peer.reconnect.fired). When
+// the two are equal no attempt of that address is being started, run or post-processed: a
+// quiescent point at which the exported state of the reconnector can be sampled.
+type c31Track struct {
+	mu    sync.Mutex
+	enter map[string]int
+	exit  map[string]int
+}
+
+func c31NewTrack(rec *peer.Reconnector) *c31Track {
+	t := &c31Track{enter: map[string]int{}, exit: map[string]int{}}
+	c31Tracks.Store(rec, t)
+	return t
+}
+
+func (t *c31Track) counts(addr string) (int, int) {
+	t.mu.Lock()
+	defer t.mu.Unlock()
+	return t.enter[addr], t.exit[addr]
+}
+
+// atRest waits until no goroutine is inside attemptReconnect for addr and then evaluates get()
+// at a point where none entered meanwhile. ok=false: hook not reached / watchdog / kept moving.
+func (t *c31Track) atRest(addr string, get func() int) (v int, ok bool) {
+	if e, _ := t.counts(addr); e == 0 {
+		return 0, false // the attempt we are following never passed the hook: hook absent
+	}
+	deadline := time.Now().Add(c31Watchdog)
+	for try := 0; try < 1000; try++ {
+		e1, x1 := t.counts(addr)
+		if e1 != x1 {
+			if time.Now().After(deadline) {
+				return 0, false
+			}
+			time.Sleep(100 * time.Microsecond)
+			continue
+		}
+		v = get()
+		e2, _ := t.counts(addr)
+		if e2 == e1 {
+			return v, true
+		}
+	}
+	return 0, false
+}
+
 var (
+	c31Tracks   sync.Map // *peer.Reconnector -> *c31Track
 	c31Gates    sync.Map // *peer.Reconnector -> *c31Gate
 	c31FireOnce sync.Once
 	c31Fires    struct {
@@ -51,6 +99,14 @@ func c31InstallFireHook() {
 			rec, ok := args[0].(*peer.Reconnector)
 			if !ok {
 				return
+			}
+			if t, ok := c31Tracks.Load(rec); ok && len(args) >= 2 {
+				if a, ok := args[1].(string); ok {
+					tr := t.(*c31Track)
+					tr.mu.Lock()
+					tr.enter[a]++
+					tr.mu.Unlock()
+				}
 			}
 			g, ok := c31Gates.Load(rec)
 			if !ok {
@@ -78,6 +134,14 @@ func c31InstallFireHook() {
 			rec, ok := args[0].(*peer.Reconnector)
 			if !ok {
 				return
+			}
+			if t, ok := c31Tracks.Load(rec); ok && len(args) >= 2 {
+				if a, ok := args[1].(string); ok {
+					tr := t.(*c31Track)
+					tr.mu.Lock()
+					tr.exit[a]++
+					tr.mu.Unlock()
+				}
 			}
 			g, ok := c31Gates.Load(rec)
 			if !ok {
